@@ -157,6 +157,21 @@ class Scenario:
             except InvalidLinkError:
                 self.rejected.append("InvalidLinkError")
 
+    def add_later(self, add: dict) -> None:
+        """round 6c: clamps / links added between two optimize() calls, on vertices that have not moved so far
+        (so their position is still the initial one; the generator guarantees it)"""
+        for spec in add.get("clamps", []):
+            idx = self.index_of[tuple(spec["at"])]
+            clamp = self.make_clamp(spec, self.initial[idx])
+            self._setup("clamp", clamp, lambda c=clamp: self.opt.add_clamp(c))
+            self.clamps.append((spec, clamp, idx))
+        for spec in add.get("links", []):
+            li = self.index_of[tuple(spec["leader"])]
+            fi = self.index_of[tuple(spec["follower"])]
+            link = self.make_link(spec, self.initial[li], self.initial[fi])
+            self._setup("link", link, lambda l=link: self.opt.add_link(l))
+            self.links.append((spec, link, li, fi))
+
     def _setup(self, kind: str, obj, call) -> None:
         """performs one add_clamp / add_link call and logs arguments, outcome and what the grid has registered
         afterwards (round 5: the set-up path is part of the model, request `c13.setup`)"""
@@ -303,6 +318,15 @@ class Recorder:
         self.link_no = {id(l): n for n, (_, l, _, _) in enumerate(sc.links)}
         self.last_update_raised = False
 
+    def clamp_uid(self, clamp) -> int:
+        if not hasattr(self, "_clamp_uids"):
+            self._clamp_uids: Dict[int, int] = {}
+            self._clamp_keep: List[Any] = []
+        if id(clamp) not in self._clamp_uids:
+            self._clamp_uids[id(clamp)] = len(self._clamp_uids)
+            self._clamp_keep.append(clamp)
+        return self._clamp_uids[id(clamp)]
+
     def link_id(self, link) -> int:
         if id(link) not in self.link_no:
             self.link_no[id(link)] = len(self.link_no)
@@ -373,7 +397,9 @@ class Recorder:
         prm = self.prmid(clamp.params) if clamp is not None else 0
         posid = self.pid(position)
         if clamp is not None:
-            self._put(self.pos, (j, prm), posid, "pos")
+            # keyed by the clamp OBJECT (a stable number), not by its number in `grid.clamps`: a clamp added between
+            # two calls on a junction with a lower index renumbers the others (round 6c)
+            self._put(self.pos, (self.clamp_uid(clamp), prm), posid, "pos")
         res: Optional[float] = None
         self.last_update_raised = False
         try:
@@ -529,6 +555,7 @@ class C13(core.Check):
         "against the geometry given at the start), variants (positions typed by hand: lists / tuples, whole numbers as "
         "ints), micro (the lattice with 0.05..0.2 mm cells), rejected (link candidates whose follower is no grid point "
         "are refused, the error is caught, then optimize), "
+        "grow (two or three optimize() calls on one optimizer, another clamp - sometimes leading a translation link - added before each later call; judged per call), "
         "nearideal (millimetre-sized sketches with only the clamped vertices 1e-5..9e-5 of a cell off: negative summed quality), "
         "boundary (0 iterations, no clamps, auto_optimize; 0 iterations with the report on), defaults (optimize() without "
         "arguments), driver (no optimiser run: a real IterationDriver fed with begin / end_iteration calls - limits -1..20, "
@@ -561,8 +588,8 @@ class C13(core.Check):
         "initial state is T_C13_noworse_general. Round 6: the driver / reporter model (IterationDriver, ClampOptimizationData, "
         "summary block) is over Q, the implementation computes in floats (compared to 1e-9 relative, the printed summary to 4 "
         "digits); T_C13_tie_statements is a textual snapshot of the control methods (trip-wire), the other T_C13_tie_* are "
-        "semantic; add_clamp / add_link between two optimize() calls and exceptions other than ValueError inside the "
-        "minimiser have no theorem."
+        "semantic; additions between two optimize() calls are covered by T_C13_frame_phases / T_C13_noworse_phases with 'every phase is "
+        "entered in a rest state' as hypothesis; exceptions other than ValueError inside the minimiser are not modelled."
     )
 
     # ------------------------------------------------------------------ generators
@@ -851,6 +878,55 @@ class C13(core.Check):
         case.update({"live": True, "calls": calls, "method": calls[-1][0], "max_iterations": calls[-1][1]})
         return case
 
+    def _gen_grow(self, rng: random.Random) -> dict:
+        """round 6c: the optimizer grows between calls.  optimize() is called two or three times on ONE optimizer; before
+        the second (third) call another clamp is added (sometimes leading a translation link) on a vertex that has not
+        moved so far.  Clamp types whose constructor finds its parameters exactly (free, plane / line through the
+        vertex).  Judged per call: only vertices clamped (or following a clamped leader) at the time of a call may
+        move in it, quality never gets worse, every clamp / link added so far keeps its constraint."""
+        kind = rng.choice(["mesh", "sketch"])
+        dims = rng.choice([[2, 2, 1], [2, 1, 2], [2, 2, 2]]) if kind == "mesh" else rng.choice([[3, 2, 0], [3, 3, 0], [2, 2, 0]])
+        case: Dict[str, Any] = {"kind": kind, "dims": dims, "frame": rng.choice(list(FRAMES)), "stream": "grow"}
+        lat = lattice_points(case)
+        amp = 10
+        jitter = {p: [rng.randint(-amp, amp) / 64, rng.randint(-amp, amp) / 64, (rng.randint(-amp, amp) / 64 if kind == "mesh" else 0.0)] for p in lat}
+        n_calls = rng.choice([2, 2, 3])
+        pool = lat[1:]
+        rng.shuffle(pool)
+
+        def clamp_spec(at) -> dict:
+            t = rng.choice(["free", "plane", "line"] if kind == "mesh" else ["plane", "line"])
+            spec: Dict[str, Any] = {"at": list(at), "type": t}
+            if t == "plane":
+                spec["normal"] = [0.0, 0.0, 1.0] if kind == "sketch" else self._rand_dir(rng)
+            elif t == "line":
+                d = [rng.choice([-1.0, 1.0, 0.5]), rng.choice([-1.0, 0.5, 1.0]), 0.0] if kind == "sketch" else self._rand_dir(rng)
+                spec.update({"dir": d, "a": 0.0, "b": 1.0, "from_vertex": True, "bounds": [-rng.randint(2, 4) / 8, rng.randint(2, 4) / 8]})
+            return spec
+
+        groups = []
+        for _ in range(n_calls):
+            at = pool.pop()
+            g: Dict[str, Any] = {"clamps": [clamp_spec(at)], "links": []}
+            if len(pool) > n_calls and rng.random() < 0.4:
+                g["links"].append({"leader": list(at), "follower": list(pool.pop()), "type": "translation"})
+            groups.append(g)
+        calls = [[rng.choice(METHODS), rng.choice([1, 1, 2]), False] for _ in range(n_calls)]
+        case.update(
+            {
+                "jitter": [jitter[p] for p in lat],
+                "clamps": groups[0]["clamps"],
+                "links": groups[0]["links"],
+                "adds": [dict(g, before_call=k) for k, g in enumerate(groups) if k >= 1],
+                "calls": calls,
+                "method": calls[-1][0],
+                "max_iterations": calls[-1][1],
+                "tolerance": 0.1,
+                "np_seed": rng.randint(0, 2**31 - 1),
+            }
+        )
+        return case
+
     def _gen_variants(self, rng: random.Random) -> dict:
         """round 4: API variants.  Positions typed by hand: clamps and links get python lists / tuples, whole numbers
         as ints (cb.TranslationLink([0.1, 1.2, 0.0], [0, 2, 0])).  Identity frame; the follower sits exactly on its
@@ -1061,6 +1137,7 @@ class C13(core.Check):
             cases += self._gen_boundary(rng, tier)
         # round 6 (drawn last: the cases above are the ones earlier rounds saw for the same seed)
         cases += [self._gen_nearideal(rng) for _ in range(6 if tier == "quick" else 60)]
+        cases += [self._gen_grow(rng) for _ in range(3 if tier == "quick" else 40)]
         cases += [self._gen_defaults(rng, tier) for _ in range(1 if tier == "quick" else 10)]
         c = self._gen_valid(rng, tier, "boundary")
         c.update({"max_iterations": 0, "report": True})
@@ -1171,7 +1248,13 @@ class C13(core.Check):
         per_call: List[Dict[str, Any]] = []
         buf = io.StringIO()
         with rec.patched(), contextlib.redirect_stdout(buf):
-            for method, max_iterations, fresh in calls:
+            for call_no, (method, max_iterations, fresh) in enumerate(calls):
+                for add in case.get("adds", []):
+                    if add["before_call"] == call_no:
+                        try:
+                            sc.add_later(add)
+                        except Exception as e:
+                            return {"setup_error": f"adding before call {call_no + 1}: {type(e).__name__}: {e}"[:300], "setup_exc": type(e).__name__}
                 if fresh:
                     # a new optimizer for the same mesh / sketch, re-using the clamp and link objects
                     from classy_blocks.optimize.optimizer import MeshOptimizer, SketchOptimizer
@@ -1226,6 +1309,7 @@ class C13(core.Check):
                 co["max_iterations"] = max_iterations
                 co["clamp_idx"] = [rec.idx_of_clamp[j] for j in range(len(clamp_objs))]
                 co["clamp_spec"] = [spec_of.get(id(c), -1) for c in clamp_objs]
+                co["clamp_uids"] = [rec.clamp_uid(c) for c in clamp_objs]  # clamp number j of this call -> stable id
                 co["prm0"] = rec.prm0
                 co["clamp_pos0"] = rec.clamp_pos0
                 co["raised"] = raised
@@ -1246,6 +1330,14 @@ class C13(core.Check):
                     {"idx": r.index, "flag": "S" if r.skipped else ("R" if r.rolled_back else "I"), "gi": r.grid_initial, "gf": r.grid_final}
                     for r in rec.reporters
                 ]
+                # what the case had set up at the time of this call (round 6c: clamps / links may be added between calls)
+                co["case_clamps"] = [[n, idx] for n, (_, _, idx) in enumerate(sc.clamps)]
+                co["case_links"] = [[li, fi] for _, _, li, fi in sc.links]
+                co["link_data"] = [
+                    {"type": s_["type"], "leader": li, "follower": fi, "leader0": [float(x) for x in sc.initial[li]],
+                     "follower0": [float(x) for x in sc.initial[fi]]}
+                    for s_, _, li, fi in sc.links
+                ]
                 co["events"] = rec.events
                 co["J"] = [[k[0], list(k[1]), v] for k, v in rec.J.items()]
                 per_call.append(co)
@@ -1254,11 +1346,9 @@ class C13(core.Check):
         # the last call at top level (what single-call cases always had), earlier ones under "prev"
         obs.update(per_call[-1])
         obs["prev"] = per_call[:-1]
-        obs["case_clamps"] = [[n, idx] for n, (_, _, idx) in enumerate(sc.clamps)]
         if case.get("auto"):
             nx = case["dims"][0] + 1
             obs["case_clamps"] = [[-1, sc.index_of[p]] for p in sc.lat if 0 < p[0] < case["dims"][0] and 0 < p[1] < case["dims"][1]]
-        obs["case_links"] = [[li, fi] for _, _, li, fi in sc.links]
         obs["rejected"] = sc.rejected
         from classy_blocks.util import constants as cb_constants
 
@@ -1275,11 +1365,6 @@ class C13(core.Check):
         obs["conflicts"] = rec.conflicts[:5]
         obs["points"] = rec.pt_vals
         obs["quads"] = sc.quads
-        obs["link_data"] = [
-            {"type": s["type"], "leader": li, "follower": fi, "leader0": [float(x) for x in sc.initial[li]],
-             "follower0": [float(x) for x in sc.initial[fi]]}
-            for s, _, li, fi in sc.links
-        ]
         return obs
 
     # ------------------------------------------------------------------ model
@@ -1359,7 +1444,7 @@ class C13(core.Check):
                 "[" + ",".join(map(str, impl["pts0"])) + "]",
                 "[" + ",".join(f"{i}:{p}" for i, p in zip(impl["clamp_idx"], impl["prm0"])) + "]",
                 "[" + ",".join(f"{a}:{b}:{c}" for a, b, c in impl["links"]) + "]",
-                "[" + ",".join(f"{a}:{b}:{c}" for a, b, c in impl["pos"]) + "]",
+                "[" + ",".join(f"{impl['clamp_uids'].index(a)}:{b}:{c}" for a, b, c in impl["pos"] if a in impl["clamp_uids"]) + "]",
                 "[" + ",".join(f"{a}:{b}:{c}" for a, b, c in impl["lnk"]) + "]",
                 "[" + ",".join(f"{_dots(k)}={_q(v)}" for k, v in impl["G"]) + "]",
                 "[" + ",".join(f"{i}@{_dots(k)}={_q(v)}" for i, k, v in impl["J"]) + "]",
@@ -1463,13 +1548,13 @@ class C13(core.Check):
             return "recorded oracle graphs are not functional (a clamp function / link / quality answered differently for the same argument): " + "; ".join(impl["conflicts"])
         # set-up: the grid must have the clamps on the junctions of the clamped vertices and exactly the links that
         # were added successfully (the model's `Cfg` is read from the grid, the case says what it should be)
-        want_c = sorted(idx for _, idx in impl["case_clamps"])
         for c in self._per_call(impl):
+            want_c = sorted(idx for _, idx in c["case_clamps"])  # at the time of that call
             if sorted(c["clamp_idx"]) != want_c:
                 return f"clamps sit on junctions {sorted(c['clamp_idx'])}, the clamped vertices are {want_c}"
             got_l = sorted([l[0], l[1]] for l in c["links"])
-            if got_l != sorted(impl["case_links"]):
-                return f"the grid has the links (leader, follower) {got_l} registered, successfully added were {sorted(impl['case_links'])}"
+            if got_l != sorted(c["case_links"]):
+                return f"the grid has the links (leader, follower) {got_l} registered, successfully added were {sorted(c['case_links'])}"
         su = impl.get("setup")
         if su and su["log"]:
             why = self._compare_setup(su, model[-1])
@@ -1583,6 +1668,11 @@ class C13(core.Check):
                 break
         return out
 
+    @staticmethod
+    def _all_specs(case: dict, what: str) -> List[dict]:
+        """the specs in the order the scenario builds them: the initial ones, then the ones added between calls"""
+        return list(case[what]) + [s for add in sorted(case.get("adds", []), key=lambda a: a["before_call"]) for s in add.get(what, [])]
+
     def _oracle_one(self, case: dict, impl: Any) -> List[dict]:
         import numpy as np
 
@@ -1653,7 +1743,7 @@ class C13(core.Check):
         helper = _Geo(case)
         if not case.get("auto"):
             for specno, idx in impl["case_clamps"]:
-                spec = case["clamps"][specno]
+                spec = self._all_specs(case, "clamps")[specno]
                 msg = helper.check_clamp(spec, P0[idx], None, P1[idx], None)
                 if msg:
                     out.append({"site": f"clamp.{spec['type']}:{msg[0]}", "what": f"clamp at {spec['at']}: {msg[1]}", "observed": P1[idx].tolist()})
@@ -1662,7 +1752,7 @@ class C13(core.Check):
                 if abs(float(np.dot(P1[idx] - P0[idx], _dir_world(case, [0, 0, 1])))) > EPS_GEO:
                     out.append({"site": "clamp.plane:off-manifold", "what": f"auto clamp {idx} left the sketch plane"})
         # 4. links
-        for spec, l in zip(case["links"], impl["link_data"]):
+        for spec, l in zip(self._all_specs(case, "links"), impl["link_data"]):
             if l["leader"] not in clamped:
                 continue
             msg = helper.check_link(spec, np.array(l["leader0"]), np.array(l["follower0"]), P1[l["leader"]], P1[l["follower"]])
